@@ -250,6 +250,36 @@ Fixpoint plain_map (es : list (str * item * bool)) (acc : list (str * item)) : l
   | (k, v, consumed) :: r => plain_map r (if consumed then acc else sset k v acc)
   end.
 
+Section Children.
+  (* compile the child found at a path *)
+  Variable comp : list str -> ydoc -> item * flags.
+  Fixpoint seq_children (path : list str) (l : list ydoc) (i : nat) : list item * flags :=
+    match l with
+    | [] => ([], fl0)
+    | c :: r => let '(v, f1) := comp (path ++ [idx_key i]) c in
+                let '(vs, f2) := seq_children path r (S i) in (v :: vs, fl_or f1 f2)
+    end.
+  (* children first: convert every value, then let Parse look at it *)
+  Fixpoint map_children (res : str) (path : list str) (m : list (str * ydoc))
+    : list (str * item * bool) * list sdir * list sdir * flags :=
+    match m with
+    | [] => ([], [], [], fl0)
+    | (k, c) :: r =>
+        let '(v, f1) := comp (path ++ [k]) c in
+        let '(i1, p1, consumed) := parse_entry res k v in
+        let bad := (str_eqb k s_patch && negb consumed && negb (is_null v)) in
+        let '(es, i2, p2, f2) := map_children res path r in
+        ((k, v, consumed) :: es, i1 ++ i2, p1 ++ p2,
+         fl_or (fl_or f1 f2) (fl_of_ok (negb bad)))
+    end.
+End Children.
+
+Definition auto_dirs (res : str) (path : list str) (y : ydoc) : list sdir :=
+  match path with
+  | [] => if auto_patched res y then [SPatRef (auto_patch_ref res)] else []
+  | _ => []
+  end.
+
 Fixpoint spec_node (ds : docs) (fuel : nat) : visiting -> str -> list str -> ydoc -> item * flags :=
   match fuel with
   | 0 => fun _ _ _ _ => (Null, fl_oof)
@@ -260,37 +290,13 @@ Fixpoint spec_node (ds : docs) (fuel : nat) : visiting -> str -> list str -> ydo
       | YScalar s => (Scalar s, fl0)
       | YSeq l =>
           let vis' := (res, path) :: vis in
-          let '(vs, fl) :=
-            (fix each (l : list ydoc) (i : nat) : list item * flags :=
-               match l with
-               | [] => ([], fl0)
-               | c :: r => let '(v, f1) := go vis' res (path ++ [idx_key i]) c in
-                           let '(vs, f2) := each r (S i) in (v :: vs, fl_or f1 f2)
-               end) l 0 in
+          let '(vs, fl) := seq_children (fun p c => go vis' res p c) path l 0 in
           (Lst vs, fl)
       | YMap m =>
           let vis' := (res, path) :: vis in
-          (* children first: convert every value, then let Parse look at it *)
-          let '(es, incs, pats, fl1) :=
-            (fix each (m : list (str * ydoc))
-               : list (str * item * bool) * list sdir * list sdir * flags :=
-               match m with
-               | [] => ([], [], [], fl0)
-               | (k, c) :: r =>
-                   let '(v, f1) := go vis' res (path ++ [k]) c in
-                   let '(i1, p1, consumed) := parse_entry res k v in
-                   let bad := (str_eqb k s_patch && negb consumed &&
-                               negb (is_null v)) in
-                   let '(es, i2, p2, f2) := each r in
-                   ((k, v, consumed) :: es, i1 ++ i2, p1 ++ p2,
-                    fl_or (fl_or f1 f2) (fl_of_ok (negb bad)))
-               end) m in
+          let '(es, incs, pats, fl1) := map_children (fun p c => go vis' res p c) res path m in
           let cur := Map (plain_map es []) in
-          let auto := match path with
-                      | [] => if auto_patched res y then [SPatRef (auto_patch_ref res)] else []
-                      | _ => []
-                      end in
-          let '(v, fl2) := apply_dirs (spec_node ds f) ds vis' (incs ++ pats ++ auto) cur in
+          let '(v, fl2) := apply_dirs (spec_node ds f) ds vis' (incs ++ pats ++ auto_dirs res path y) cur in
           (v, fl_or fl1 fl2)
       end
   end.
